@@ -115,3 +115,8 @@ Definition loop_dlabel (l : dlabel) : bool := match l with DFetch | DDispatch =>
 Fixpoint fill_from (i n : nat) : list dlabel :=
   match n with O => [] | S m => DFetch :: DDispatch :: WorkerTake i :: fill_from (S i) m end.
 Definition fill_pool (n : nat) : list dlabel := MakeDue n :: fill_from O n.
+
+(* one execution that panics in worker i: due, fetched, handed over, taken by worker i, ended by a panic *)
+Definition panic_round (i : nat) : list dlabel := [MakeDue 1; DFetch; DDispatch; WorkerTake i; WorkerEnd i APanic].
+Fixpoint panic_rounds (ws : list nat) : list dlabel :=
+  match ws with [] => [] | i :: t => panic_round i ++ panic_rounds t end.
